@@ -28,7 +28,7 @@ A5 = "A5 default features (async on, std-mutex off); atomics sequentially consis
 T_COMMON = [
     "T1 Mutex::lock/try_lock/from and MutexGuard Deref/DerefMut/drop (prelude_u1.rs): exclusive access, wf on acquisition, try_lock never waits",
     "T11 vstd's own specifications of VecDeque, Vec, Arc, Option, Result, MaybeUninit",
-    "kweave (the extractor): trusted to copy text by span; checked on every run by the byte-level fidelity audit; exec rewrites X1-X8 are listed in this file under exec_rewrites",
+    "kweave (the extractor): trusted to copy text by span; checked on every run by the byte-level fidelity audit; exec rewrites X1-X10 are listed in this file under exec_rewrites",
     "Verus 0.2026.09.13 and Z3 as shipped",
 ]
 T_SIGNAL = [
